@@ -1,6 +1,6 @@
 """A translator from a small, explicitly delimited subset of Python to Lean 4 definitions.
 
-    /venv/bin/python harness/py2lean.py [repo]          # prints lean/NdnGen/TlvVar.lean for that tree
+    /venv/bin/python harness/py2lean.py [repo] [TlvVar|Component|TlvModelFields|NameGen]    # prints lean/NdnGen/<that>.lean
 
 The text of a function is read with `ast`; nothing is executed and nothing is recognised "by shape": every construct
 is mapped compositionally to one definition of lean/NdnModel/PySem.lean (namespace Ndn.Py) or to core Lean, and a
@@ -62,6 +62,34 @@ THE SUBSET
               (which is then returned like a written buffer); `x.encode('utf-8')` on text, `b.decode('utf-8')`;
               `b[i] = <literal 0..255>`; `b[a:b] = x` on a buffer parameter (same-size case only, see Py.setSliceSameSize);
               `x += f(...)` for a translated f.
+
+  lists       a parameter annotated `FormalName` / `list[<byte-string type>]` (or declared so by the request) is a LIST OF
+              BYTE STRINGS (`List Bytes`); so is a result annotated `list[memoryview]`, also inside a tuple.  On such a
+              value: `len(l)`, `l[a:b]` / `l[:b]` / `l[a:]`, `l == m` / `l != m`, truthiness.  `l = []` makes `l` a local
+              list this function owns (outside loops, a new name); `l.append(x)` (x a byte string) is allowed on such a
+              list only, and it may have no second name and may not be sliced.
+  reduce      `reduce(lambda x, y: <int expression over x, y and other names, nothing that can raise>, <list>, <int>)`
+              where `reduce` is functools.reduce (imported plainly, never rebound): `Py.reduce` (a left fold).
+  for         `for x in <list given by name>:` with a body inside the statement subset (no `return` / `break` /
+              `continue` / `else`; `raise` is fine): `Py.forEach` over the values of the variables the body assigns (and of
+              the buffers / local lists it mentions); x must be a new name, the list may not be assigned in the body, a
+              name first bound inside the body (and x) may not be read after the loop, the body may not change the type of
+              a variable or which buffers the function owns.
+  while       `while <test>:` with such a body: a separate definition `<fn>_loop_<k>` by recursion on a FUEL argument over
+              the same loop-carried variables; the loop ends when the test is false, running out of fuel is `PyErr.other`
+              ("not modelled").  The fuel is an int expression over the variables at loop entry DECLARED by the request
+              (NAME_SPECS) - a theorem has to show that it is never exhausted (Props/NameGen.lean: decode_error_class).
+  optional    a parameter annotated `<byte-string type> | None` with default `None`: `Option Bytes`.  `if p:` / `if not p:`
+  buffer      on it is a `match`: None is false, a byte string is true unless empty (the false branch is translated for
+              both).  If the function writes to it, it may be rebound ONCE, outside loops, to a fresh `bytearray(n)`: from
+              there on the name is a buffer the function owns, and what is returned next to the result is what the
+              CALLER's object holds (None, or the byte string passed, unchanged).
+  bool value  a comparison / `not` / `and` / `or` of comparisons used as a value (`return a <= b and l == m`): `decide`;
+              return annotation `bool`.
+  declared    the request may declare (NAME_SPECS; written into the comment of the generated definition) the types of
+              un-annotated / loosely annotated parameters, and that a named function of the module returns an equal list
+              on an argument that already is a list of byte strings (`normalize` in `is_prefix`: the translation is then
+              for such arguments only).
 
 Python ints are Lean `Int`, byte strings are `List UInt8`, exceptions are `Except.error` of `Ndn.PyErr`.
 `PyErr.other` in a Py.* primitive marks an input on which CPython's behaviour is NOT modelled (it is never the result
@@ -1576,8 +1604,8 @@ def generate(repo):
 
 
 def write_generated(repo):
-    """regenerate lean/NdnGen/TlvVar.lean and lean/NdnGen/Component.lean from the tree at `repo` (called from the
-    extract() of the properties whose theorems mention them: C08, C09), under the build lock"""
+    """regenerate lean/NdnGen/TlvVar.lean, Component.lean, TlvModelFields.lean and NameGen.lean from the tree at `repo`
+    (called from the extract() of the properties whose theorems mention them: C01, C07, C08, C09), under the build lock"""
     import lib
     texts = generate_all(repo)
     with lib.Lock(os.path.join(lib.LEAN, '.build.lock')):
